@@ -144,6 +144,8 @@ func Run(t Tape, trace bool, budget int64, clients map[string]func()) (Report, [
 		return report, nil
 	}
 	first := pickLocked(nil)
+	cur = first
+	first.state = running
 	mu.Unlock()
 	first.gate <- struct{}{}
 	<-finish
